@@ -70,15 +70,16 @@ theorem C05_first_raise_installs (rf : Bool) (s : State) (hc : s.cell = none) :
       let s' := step rf s (.drv (.det e))
       s'.cell = some e ∧ s'.handled = some (convert e) ∧ s'.drets = convert e :: s.drets ∧
       s'.closes = s.closes ++ (closeOf e).toList) ∧
-    (∀ op, (∀ e, op ≠ .det e) → (step rf s (.drv op)).cell = none) := by
+    (∀ op, (∀ e, op ≠ .det e) → (∀ r, op ≠ .bidi r) → (step rf s (.drv op)).cell = none) := by
   refine ⟨?_, ?_, ?_⟩
   · intro i t e rest ht hm htodo
     simp [step, sstep, ht, hm, htodo, sset, hc]
   · intro e hn hp
     rcases hp with hp | hp <;> simp [step, dstep, hp, detect, hn, hc, observe]
-  · intro op hop
+  · intro op hop hop'
     cases op with
     | det e => exact absurd rfl (hop e)
+    | bidi r => exact absurd rfl (hop' r)
     | poll => simp only [step, dstep]; split <;> simp_all
     | park => simp only [step, dstep]; split <;> simp_all
     | pce =>
@@ -250,6 +251,135 @@ theorem C05_lost_wakeup_witness :
     lostWakeup s = true ∧ quiescent s = true ∧ s.cell = some (.internal 261 1) ∧
     s.parked = true ∧ s.woken = false ∧ s.handled = none ∧ s.closes = [] ∧ s.drets = [] ∧
     s.tasks.map (·.rets) = [[.internal 261 1]] := by decide
+
+/-! ## the client's driver: the tail of `poll_close` -/
+
+/-- **The end of a poll of client `poll_close` / `wait_idle`.**  Its last act is
+    `if poll_accept_bi(cx).is_ready() { return handle_connection_error(H3_STREAM_CREATION_ERROR) }`,
+    and `poll_accept_bi` is also `Ready` when the transport failed (it has then raised the transport's
+    error itself) — `DOp.bidi r`, `clientTail`.  In every reachable state (any handles, errors,
+    schedule, either order of register/check) in which the driver is inside a poll, that step ends
+    the poll (never parked) with the connection's single error `w`: the error already in the cell if
+    there is one — whoever stored it, a handle between the driver's last check and this point
+    included: neither the transport's error nor H3_STREAM_CREATION_ERROR replaces it —, otherwise
+    the transport's error, otherwise H3_STREAM_CREATION_ERROR; the call returns `convert w`,
+    `handled` is that, and the close calls are exactly `closeOf w` (so at most one, with the
+    winner's code, none for an error of the peer/transport); an error handled before stays and
+    nothing more is closed. -/
+theorem C05_client_poll_close_tail (rf : Bool) (todo : List (List Err)) (sched : List TaskId)
+    (r : Option QErr) :
+    let s := run rf (init todo) sched
+    let s' := step rf s (.drv (.bidi r))
+    (s.pc = .started ∨ s.pc = .armed) →
+    s'.pc = .idle ∧ s'.parked = false ∧
+    ∃ w, s'.cell = some w ∧ s'.handled = some (convert w) ∧ s'.closes = (closeOf w).toList ∧
+      (∃ rest, s'.drets = convert w :: rest) ∧
+      (∀ e, s.cell = some e → w = e) ∧
+      (s.cell = none → w = match r with | some q => .quic q | none => clientBidiErr) ∧
+      (∀ h, s.handled = some h → h = convert w ∧ s'.closes = s.closes) := by
+  intro s s' hp
+  have hw : InvW s := invW_run (invW_init todo) rf sched
+  have hP : InvP s := invP_run (invW_init todo) (invP_init todo) rf sched
+  have hw' : InvW s' := invW_step hw rf _
+  have hs' : s' = clientTail s r := by
+    show step rf s (.drv (.bidi r)) = _
+    rcases hp with hp | hp <;> simp [step, dstep, hp]
+  have hnp : s.parked = false := not_parked_of_pc hP (by rcases hp with hp | hp <;> rw [hp] <;> simp)
+  have hidle := clientTail_idle s r
+  -- the last `handle_connection_error` leaves `handled` set and returns it
+  have hret : ∀ (u : State) (e : Err), ∃ h, (detect u e).handled = some h ∧
+      ∃ rest, (detect u e).drets = h :: rest := by
+    intro u e
+    unfold detect
+    split
+    · rename_i h hh; exact ⟨h, hh, u.drets, rfl⟩
+    · exact ⟨_, rfl, u.drets, rfl⟩
+  have hh' : ∃ h, s'.handled = some h ∧ ∃ rest, s'.drets = h :: rest := by
+    rw [hs']; unfold clientTail; exact hret _ _
+  obtain ⟨h, hh, rest, hd⟩ := hh'
+  obtain ⟨w, hcw, hhw, hclw⟩ := hw'.handled_cell h hh
+  refine ⟨by rw [hs']; exact hidle.1, by rw [hs', hidle.2]; exact hnp, w, hcw, by rw [hh, hhw], hclw,
+    ⟨rest, by rw [hd, hhw]⟩, ?_, ?_, ?_⟩
+  · intro e he
+    have := cell_step he rf (.drv (.bidi r))
+    change s'.cell = some e at this
+    rw [hcw] at this; exact Option.some.inj this
+  · intro hn
+    have hhn : s.handled = none := by
+      cases hx : s.handled with
+      | none => rfl
+      | some h0 => obtain ⟨e0, hc0, _⟩ := hw.handled_cell h0 hx; rw [hn] at hc0; cases hc0
+    rw [hs'] at hcw
+    cases r with
+    | none =>
+      simp [clientTail, detect, hhn, hn, observe] at hcw
+      exact hcw.symm
+    | some q =>
+      simp [clientTail, detect, hhn, hn, observe, retHandled] at hcw
+      exact hcw.symm
+  · intro h0 hh0
+    obtain ⟨e0, hc0, hhe0, hcl0⟩ := hw.handled_cell h0 hh0
+    have hc0' := cell_step hc0 rf (.drv (.bidi r))
+    change s'.cell = some e0 at hc0'
+    rw [hcw] at hc0'; cases hc0'
+    exact ⟨hhe0, by rw [hclw, hcl0]⟩
+
+-- a handle stores its error after the driver's last check of the poll and before the client is
+-- handed a server-initiated stream: the handle's error is the outcome, closed with ITS code
+example :
+    let s := run true (init [[.internal 261 1]])
+      [.drv .poll, .drv .pce, .drv .pce, .str 0, .drv (.bidi none), .str 0, .drv .poll, .drv .pce]
+    s.cell = some (.internal 261 1) ∧ s.closes = [(261, 1)] ∧
+    s.drets = [.localApp 261 1, .localApp 261 1] ∧ s.tasks.map (·.rets) = [[.internal 261 1]] := by decide
+-- nothing before: the transport's error wins over the H3_STREAM_CREATION_ERROR raised behind it
+-- (two `handle_connection_error` calls, one outcome, no close for a peer's close); a stream: 0x0103
+example :
+    let s := run true (init [[]]) [.drv .poll, .drv .pce, .drv .pce, .drv (.bidi (some (.appClose 256)))]
+    s.cell = some (.quic (.appClose 256)) ∧ s.closes = [] ∧
+    s.drets = [.remote (.appClose 256), .remote (.appClose 256)] := by decide
+example :
+    let s := run true (init [[]]) [.drv .poll, .drv .pce, .drv .pce, .drv (.bidi none)]
+    s.cell = some (.internal 259 0) ∧ s.closes = [(259, 0)] ∧ s.drets = [.localApp 259 0] := by decide
+
+/-! ## the application drops the driver (reading R-05) -/
+
+/-- **`Drop` never touches the first close call.**  `Drop for server::Connection` calls
+    `close(H3_NO_ERROR)` unconditionally (`H3.Setup.dropConn`).  The property's "the QUIC connection
+    is closed with exactly that error's code" speaks about the call that closes the connection, the
+    first one (reading R-05: a `close` on a closed QUIC connection changes nothing the peer sees).
+    Whatever the driver's error state: the drop appends at most one call (H3_NO_ERROR = 0x0100, server
+    only — the client's driver has no `Drop`) and leaves `handled` alone; a first close call there
+    was stays the first; and once the driver has acted on an error `e` (`raise` on a driver that had
+    none), the calls are `closeCode e` followed by the drop's — so for an error detected locally the
+    first call, the one that closes the connection, carries exactly that error's code, and for an
+    error of the peer / the transport the drop's call is the only one. -/
+theorem C05_drop_keeps_first_close (server : Bool) (d : H3.Setup.Drv) :
+    (H3.Setup.dropConn server d).closes = d.closes ++ (if server then [0x0100] else []) ∧
+    (H3.Setup.dropConn server d).handled = d.handled ∧
+    (∀ c, d.closes.head? = some c → (H3.Setup.dropConn server d).closes.head? = some c) ∧
+    (∀ e, d.handled = none → d.closes = [] →
+      (H3.Setup.dropConn server (H3.Setup.raise d e).1).closes
+        = H3.Setup.closeCode e ++ (if server then [0x0100] else []) ∧
+      (∀ c t, closeOf e = some (c, t) →
+        (H3.Setup.dropConn server (H3.Setup.raise d e).1).closes.head? = some c)) := by
+  refine ⟨?_, ?_, ?_, ?_⟩
+  · cases server <;> simp [H3.Setup.dropConn, H3.Gen.Consts.CODE_H3_NO_ERROR]
+  · cases server <;> simp [H3.Setup.dropConn]
+  · intro c hc
+    cases hcl : d.closes with
+    | nil => rw [hcl] at hc; cases hc
+    | cons a r => rw [hcl] at hc; cases server <;> simp_all [H3.Setup.dropConn]
+  · intro e hn hcl
+    refine ⟨?_, ?_⟩
+    · cases server <;> simp [H3.Setup.dropConn, H3.Setup.raise, hn, hcl, H3.Gen.Consts.CODE_H3_NO_ERROR]
+    · intro c t hce
+      cases server <;> simp [H3.Setup.dropConn, H3.Setup.raise, hn, hcl, H3.Setup.closeCode, hce]
+
+-- the witness of R-05 on the model: H3_FRAME_UNEXPECTED handled, then the server object is dropped:
+-- `closed=[261,256]`; a peer's close, then the drop: `[256]`; a client: nothing added
+example : (H3.Setup.dropConn true (H3.Setup.raise {} (.internal 261 0)).1).closes = [261, 256] ∧
+    (H3.Setup.dropConn true (H3.Setup.raise {} (.quic (.appClose 256))).1).closes = [256] ∧
+    (H3.Setup.dropConn false (H3.Setup.raise {} (.internal 259 0)).1).closes = [259] := by decide
 
 /-! ## `shutdown` (D-05s, repaired): the driver's remaining entry point reports the error too -/
 
